@@ -1,0 +1,38 @@
+// Copyright 2026 foyer Project Authors
+//
+// Licensed under the Apache License, Version 2.0 (the "License");
+// you may not use this file except in compliance with the License.
+// You may obtain a copy of the License at
+//
+//     http://www.apache.org/licenses/LICENSE-2.0
+//
+// Unless required by applicable law or agreed to in writing, software
+// distributed under the License is distributed on an "AS IS" BASIS,
+// WITHOUT WARRANTIES OR CONDITIONS OF ANY KIND, either express or implied.
+// See the License for the specific language governing permissions and
+// limitations under the License.
+
+//! Re-exports of crate-internal items for external verification harnesses (feature `verif`).
+//!
+//! Nothing here changes behaviour: the module only makes the disk-format building blocks and the I/O traits
+//! nameable from outside the crate, so that a harness can call them directly and can wrap an I/O engine.
+
+pub use crate::{
+    engine::block::{
+        buffer::{
+            Batch, BlobEntryIndex, BlobIndex, BlobIndexReader, BlobPart, Block as BatchBlock, Buffer, BufferEntryInfo,
+            SplitCtx, Splitter,
+        },
+        indexer::{EntryAddress, HashedEntryAddress, Indexer},
+        serde::{EntryHeader, Sequence},
+        tombstone::{Tombstone, TombstoneLog},
+    },
+    io::{
+        PAGE,
+        bytes::{IoB, IoBuf, IoBufMut, IoSlice, IoSliceMut, Raw},
+        device::{Partition, PartitionId},
+        engine::IoEngineBuildContext,
+    },
+    keeper::Keeper,
+    serde::{Checksummer, EntryDeserializer, EntrySerializer, KvInfo},
+};
